@@ -122,7 +122,8 @@ def case_p(case):
 # ------------------------------------------------------------------------------- B half
 def base_types(ir):
     return {"u32": ir.special("U32"), "string": ir.special("String"), "bytes": ir.vec(ir.special("U8")), "map": ir.hashmap(ir.special("String"), ir.simple("Other")),
-            "user": ir.simple("Other"), "generic": ir.simple("T"), "bool": ir.special("Bool"), "vec_user": ir.vec(ir.simple("Other"))}
+            "user": ir.simple("Other"), "generic": ir.simple("T"), "bool": ir.special("Bool"), "vec_user": ir.vec(ir.simple("Other")),
+            "datetime": ir.special("DateTime")}
 
 
 SHAPES = ["plain", "option", "double_option"]
@@ -139,7 +140,8 @@ def case_b(case):
     ir = IR(P.layout)
     I = new_interp(P)
     res = {"paths": 0, "violations": [], "case": list(case)}
-    cfg = {"plain": {}, "no_pointer_slice": {"no_pointer_slice": True}, "prefix": {"prefix": "OP"}, "override": {}, "override_readonly": {}}[cfgname]
+    cfg = {"plain": {}, "no_pointer_slice": {"no_pointer_slice": True}, "prefix": {"prefix": "OP"}, "override": {}, "override_readonly": {},
+           "py_bytes": {"type_mappings": {"Vec<u8>": "bytes"}}}[cfgname]
     overridden = cfgname.startswith("override")
 
     def decorators():
@@ -275,7 +277,7 @@ def ts_variant_fields(sk):
 
 def render_b(case, hd):
     lang, container, base, shape, cfgname = case
-    t = {"u32": "u32", "string": "String", "bytes": "Vec<u8>", "map": "HashMap<String, Other>", "user": "Other", "generic": "T", "bool": "bool", "vec_user": "Vec<Other>"}[base]
+    t = {"u32": "u32", "string": "String", "bytes": "Vec<u8>", "map": "HashMap<String, Other>", "user": "Other", "generic": "T", "bool": "bool", "vec_user": "Vec<Other>", "datetime": "OffsetDateTime"}[base]
     if shape != "plain":
         t = "Option<%s>" % t
     if shape == "double_option":
@@ -316,6 +318,12 @@ def run(rep, tier, only=None):
                     b_cases.append((lang, "struct", base, shape, "no_pointer_slice"))
                 if lang in ("swift", "kotlin"):
                     b_cases.append((lang, "struct", "user", shape, "prefix"))
+        if lang == "python":
+            # types with a custom (de)serialiser: the Optional marker lives inside Annotated[..]
+            for shape in SHAPES:
+                for cont in ("struct", "struct_variant"):
+                    b_cases.append((lang, cont, "datetime", shape, "plain"))
+                    b_cases.append((lang, cont, "bytes", shape, "py_bytes"))
         if lang != "python":
             for shape in SHAPES:
                 for cont in ("struct", "struct_variant"):
@@ -384,7 +392,7 @@ def run(rep, tier, only=None):
                 # native replay through the real library on the rendered source
                 src = render_b(case, bool(v.get("has_default")))
                 cfg = dict(bharness.DEFAULT_CFG.get(case[0], {}))
-                cfg.update({"plain": {}, "no_pointer_slice": {"no_pointer_slice": True}, "prefix": {"prefix": "OP"}}.get(case[4], {}))
+                cfg.update({"plain": {}, "no_pointer_slice": {"no_pointer_slice": True}, "prefix": {"prefix": "OP"}, "py_bytes": {"type_mappings": {"Vec<u8>": "bytes"}}}.get(case[4], {}))
                 real = nat.ask({"op": "generate", "lang": case[0], "files": [{"source": src}], "config": cfg})
                 rep.validated += 1
                 line = v.get("line")
